@@ -134,7 +134,7 @@ def exQueryQ : Survive.Pkt :=
     [⟨[[95, 97], [95, 116, 99, 112], [108, 111, 99, 97, 108]], 12, 1⟩,
      ⟨[[120], [95, 97], [95, 116, 99, 112], [108, 111, 99, 97, 108]], 33, 0x8001⟩], []⟩, none⟩
 
-def exStateQ : CState (Unit × Route.RState) := ⟨{}, [], [], Registry.run id 4500 [.register exSvcQ], none, ((), {})⟩
+def exStateQ : CState (Unit × Route.RState) := ⟨{}, [], [], [], Registry.run id 4500 [.register exSvcQ], [], [], none, ((), {})⟩
 
 example :
     (match RouteQ.answerQ id 4500 exStateQ [exQueryQ] false with
